@@ -29,7 +29,7 @@ RULE = ('each evaluation = one (world, operation, fault site, errno) run: worlds
         'them in the thorough tier); non-trivial = the fault fired; distinct = distinct (event-log digest)')
 PLAN = {'quick': {'n': 300, 'budget_s': 90, 'block': 2, 'det': 3, 'run_timeout_s': 900},
         'thorough': {'n': 3200, 'budget_s': 2400, 'block': 4, 'det': 4, 'run_timeout_s': 1800}}
-ASSUMPTIONS = ['faults are injected at Python-level calls; DirEntry.is_dir() and the fstat inside io.FileIO are not fault sites (DESIGN §9)',
+ASSUMPTIONS = ['faults are injected at Python-level calls; DirEntry.is_dir() fails only as part of a persistently broken object (its open/stat/lstat fail too) - alone it is not a fault site, os.walk is documented to swallow it; the fstat inside io.FileIO is not a fault site (DESIGN §9)',
                'ENOENT is never injected (it means absent); EINTR is retried below the seam by CPython']
 
 ERRNOS = ['EACCES', 'EPERM', 'EIO', 'ENOMEM', 'ELOOP', 'ENOTDIR', 'EMFILE', 'ENFILE',
@@ -123,6 +123,12 @@ def generate(rng, tier, idx):
         sc['stray_unreadable'] = True
         sc['muts'] = list(sc['muts']) + [{'m': 'add', 'p': 'unreadable-stray', 'k': 'file', 'c': 'secret'}]
         sc['unreadable'] = {'path': 'unreadable-stray', 'errno': 'EACCES'}
+    if sc['unreadable'] and rng.random() < 0.5:
+        # ... and not even its directory entry can be classified (no d_type, the implied stat fails too): whoever lists the
+        # directory must not take "cannot tell what it is" for "nothing there"
+        u_ = sc['unreadable']['path']
+        if u_ == 'unreadable-stray' or (u_ in info['need'] and not any(c.startswith('.') for c in u_.split('/'))):
+            sc['unreadable'] = {'path': u_, 'errno': 'EIO', 'broken_entry': True}
     return sc
 
 
@@ -266,8 +272,8 @@ def execute(sc):
                 plans.append({'kinds': [s[0]], 'path': s[1], 'nth': s[2], 'errno': en})
         if sc.get('unreadable'):
             u = sc['unreadable']
-            plans.append({'kinds': ['open', 'os.open', 'scandir'], 'path': u['path'], 'persistent': True,
-                          'errno': u['errno']})
+            plans.append({'kinds': ['open', 'os.open', 'scandir'] + (['stat', 'lstat'] if u.get('broken_entry') else []),
+                          'path': u['path'], 'persistent': True, 'errno': u['errno'], **({'broken_entry': True} if u.get('broken_entry') else {})})
     fired_runs = 0
     outcome_classes = {}
     for plan in plans:
@@ -275,14 +281,17 @@ def execute(sc):
             build(sc, w)
             snap0 = w.snapshot()
             mm = []
-            seam = Seam(w.root, order_key=sc['order_key'], virtual_root=True, faults=[plan])
+            seam = Seam(w.root, order_key=sc['order_key'], virtual_root=True, faults=[{k_: v_ for k_, v_ in plan.items() if k_ != 'broken_entry'}],
+                        broken_entries=[plan['path']] if plan.get('broken_entry') else None)
             extra = {}
             r = run_op(sc, w, seam, mm, extra)
             snap1 = w.snapshot()
             # (an OS error other than the injected one: does the object really answer with it?)
             other_genuine = r[0] == 'OS' and r[1] != plan['errno'] and genuine_oserror(r[2])
         seams.append(seam)
-        fired = sum(f_.get('_fired', 0) for f_ in seam.faults)
+        fired = sum(f_.get('_fired', 0) for f_ in seam.faults) + seam.stats.get('broken_entry_probed', 0)
+        if plan.get('broken_entry') and seam.stats.get('broken_entry_probed'):
+            counters['entries_that_cannot_be_classified'] = counters.get('entries_that_cannot_be_classified', 0) + 1
         if not fired:
             counters['fault_not_reached'] = counters.get('fault_not_reached', 0) + 1
             continue
